@@ -31,6 +31,8 @@ where
     pub fn new() -> Self {
         let mut directory_map: HashMap<EmbeddedPath, HashSet<EmbeddedPath>> = Default::default();
         let mut files: HashMap<EmbeddedPath, u64> = Default::default();
+        // the root is a directory even if nothing is embedded
+        directory_map.entry("".into()).or_default();
         for file in T::iter() {
             let mut path = file.clone();
             files.insert(
